@@ -30,7 +30,9 @@ MODES = ["yes", "deps", "forced", "forced-deps", "forced-fallback", "packages=.*
 
 def plan(tier, seed):
     n = 8 if tier == "quick" else 300
-    return [{"seed": common.subseed(seed, "c07", i), "focused": i % 2 == 0, "modes": 3 if tier == "quick" else 6} for i in range(n)]
+    cases = [{"seed": common.subseed(seed, "c07", i), "focused": i % 2 == 0, "modes": 3 if tier == "quick" else 6} for i in range(n)]
+    cases += [{"seed": common.subseed(seed, "c07l", i), "livebid": True} for i in range(3 if tier == "quick" else 60)]
+    return cases
 
 
 def c07_model(rnd, focused, hostfile):
@@ -61,7 +63,93 @@ def c07_model(rnd, focused, hostfile):
     return m
 
 
+def run_livebid(case):
+    """Several wrong live-build-id predictions in ONE invocation ("whatever the archive contains").
+
+    Two states S0/S1 that differ only in the imported sources of 2-3 libraries (same variants).  W1a/W1b publish the live-build-id ->
+    src build-id mappings of both states (checkout-only + upload).  The harness then makes the archive lie: every mapping of S0 is
+    rewritten to the src build-id of the same library in S1.  W2 (fresh directory, S0, --download yes --upload) therefore mispredicts
+    every library and restarts per library; W3 (fresh directory, S1, --download yes) follows.  Both must equal their local clean builds.
+    """
+    common.repo_path_setup()
+    from bob.utils import hashDirectory
+    rnd = random.Random(case["seed"])
+    counters = dict.fromkeys(REQUIRED_COUNTERS, 0)
+    viol, sigs = [], set()
+    k0 = lambda: {k: [] for k in projgen.KINDS}
+    T = lambda: projgen.new_tok(rnd)
+    nlibs = rnd.choice([2, 3])
+    m = {"recipes": {}, "classes": {}, "sources": {}, "defines": {}, "default": {}, "evlog": True}
+    libs = ["lib%d" % i for i in range(nlibs)]
+    for i, n in enumerate(libs):
+        m["recipes"][n] = {"env": {}, "vars": k0(), "weak": k0(), "src": True, "tok": {"checkout": None, "build": T(), "package": T()}, "tools": k0(), "toolsWeak": k0(),
+                           "depends": ([{"name": libs[i - 1]}] if i and rnd.random() < 0.5 else [])}
+        m["sources"][n] = {"data.c": "data-" + T()}
+    m["recipes"]["root"] = {"root": True, "env": {}, "vars": k0(), "weak": k0(), "tok": {"checkout": None, "build": T(), "package": T()}, "tools": k0(), "toolsWeak": k0(),
+                            "depends": [{"name": n} for n in libs]}
+    with common.scratch("c07l") as base:
+        arch = os.path.join(base, "archive")
+        m["default"]["archive"] = {"backend": "file", "path": arch}
+        s0 = copy.deepcopy(m); s1 = copy.deepcopy(m)
+        for n in libs:
+            s1["sources"][n]["data.c"] = "changed-" + T()
+        refs = {}
+        for tag, st in (("s0", s0), ("s1", s1)):
+            R = os.path.join(base, "ref-" + tag, "r"); projgen.write_project(R, st)
+            rr = e2e.build(R, st, "dev", extra=["--download", "no"])
+            if rr.returncode != 0:
+                return result("trivial", counters=counters, note="reference build failed: " + rr.tail(300))
+            d, _ = e2e.dists(R, st, "dev")
+            refs[tag] = ({n: treecanon.canon(x) for n, x in d.items()}, d)
+        srcbid = {}
+        for tag, st in (("s0", s0), ("s1", s1)):
+            W1 = os.path.join(base, "w1" + tag, "p"); projgen.write_project(W1, st)
+            r = e2e.build(W1, st, "dev", extra=["--checkout-only", "--upload"]); counters["upload_builds"] += 1
+            if r.returncode != 0:
+                return result("trivial", counters=counters, note="mapping upload failed: " + r.tail(300))
+            d, _ = e2e.dists(W1, st, "dev", field="src")
+            srcbid[tag] = {n.split("/")[-1]: hashDirectory(x) for n, x in d.items()}
+        # the archive lies: S0's live-build-ids now map to S1's sources
+        rewritten = 0
+        inv0 = {v: k for k, v in srcbid["s0"].items()}
+        for dp, dn, fn in os.walk(arch):
+            for f in fn:
+                if f.endswith(".buildid"):
+                    p_ = os.path.join(dp, f); c = open(p_, "rb").read()
+                    if c in inv0:
+                        os.chmod(p_, 0o644); open(p_, "wb").write(srcbid["s1"][inv0[c]]); rewritten += 1
+        counters["archive_mappings_rewritten"] = rewritten
+        if rewritten < 2:
+            return result("inconclusive", counters=counters, note="could not find the uploaded live-build-id mappings")
+        for tag, st, wd, extra in (("s0", s0, "w2", ["--download", "yes", "--upload"]), ("s1", s1, "w3", ["--download", "yes"])):
+            W = os.path.join(base, wd, "deeper", "p"); projgen.write_project(W, st)
+            r = e2e.build(W, st, "dev", extra=extra); counters["download_builds"] += 1
+            summ = e2e.summary(r) or {}
+            counters["packages_downloaded"] += summ.get("downloaded", 0)
+            restarts = (r.stdout + r.stderr).count("Restart build due to wrongly predicted sources")
+            counters["build_restarts_after_wrong_prediction"] = counters.get("build_restarts_after_wrong_prediction", 0) + restarts
+            if restarts >= 2:
+                counters["invocations_with_two_or_more_wrong_predictions"] = counters.get("invocations_with_two_or_more_wrong_predictions", 0) + 1
+            ctx = {"scenario": "archive maps live-build-ids of this state to the sources of another state: several wrong predictions in one invocation",
+                   "workspace": wd, "state": tag, "libs": nlibs, "restarts": restarts, "summary": summ}
+            if r.returncode != 0:
+                viol.append(violation("build-with-downloads-failed-although-local-build-succeeds", dict(ctx, output=r.tail(500)))); continue
+            dw, _ = e2e.dists(W, st, "dev")
+            bad = []
+            for n, d in dw.items():
+                counters["packages_compared"] += 1
+                if n in refs[tag][0] and treecanon.canon(d) != refs[tag][0][n]:
+                    bad.append({"package": n, "diff": treecanon.diff(d, refs[tag][1][n], 5)})
+            if bad:
+                viol.append(violation("downloaded-build-differs-from-local-build", dict(ctx, differences=bad[:3])))
+            sigs.add("livebid|%s|libs%d|restarts%d|dl%d" % (tag, nlibs, min(restarts, 3), min(summ.get("downloaded", 0), 3)))
+        counters["states_with_differing_results"] += 1
+    return result("held", sigs=sorted(sigs), counters=counters, violations=viol[:3], sample={"scenario": "livebid", "libs": nlibs})
+
+
 def run_case(case):
+    if case.get("livebid"):
+        return run_livebid(case)
     rnd = random.Random(case["seed"])
     counters = dict.fromkeys(REQUIRED_COUNTERS, 0)
     viol, sigs = [], set()
